@@ -248,6 +248,7 @@ class State:
         self.expect_panic = 0
         self.notes = []
         self.pending = []     # deferred assertion conditions (cond, id, what)
+        self.lo = None        # last object accessed (lookup cache)
         self.dec = ()         # decisions taken at the forks on this path (for re-execution / work splitting)
 
     def fork(self):
@@ -269,6 +270,8 @@ class State:
         s.expect_panic = self.expect_panic
         s.notes = list(self.notes)
         s.pending = list(self.pending)
+        s.lo = None
+        self.lo = None
         s.dec = self.dec
         return s
 
@@ -475,6 +478,9 @@ class Engine:
         return base
 
     def find_obj(self, st, addr, write=False):
+        o = st.lo
+        if o is not None and o.base <= addr < o.base + o.size and not o.freed and (not write or (o.owner == st.id and not o.ro)):
+            return o
         o = None
         if addr >= STACK_BASE:
             bases = st.sbases
@@ -503,6 +509,7 @@ class Engine:
             if o.owner != st.id:
                 o = o.clone(st.id)
                 st.mem[o.base] = o
+        st.lo = o
         return o
 
     def conc_addr(self, st, addr, what):
@@ -1146,6 +1153,7 @@ class Engine:
         o = self.find_obj(st, args[0], write=True)
         o.freed = True
         o.cells = {}
+        st.lo = None
         return None
 
     def i_realloc(self, st, fr, name, dem, args, rt):
@@ -1607,7 +1615,15 @@ class Engine:
             if op == 'load':
                 _, dst, t, a = ins
                 addr = (L[a[1]] if a[0] == 'l' else (a[1] if a[0] == 'c' else self.ev(st, fr, PTR, a)))
-                if is_sym(addr):
+                if type(addr) is int:
+                    k = t[0]
+                    if k == 'ptr':
+                        L[dst] = self.load_int(st, addr, 8)
+                    elif k == 'i' and t[1] in (8, 16, 32, 64):
+                        L[dst] = self.load_int(st, addr, t[1] >> 3)
+                    else:
+                        L[dst] = self.load(st, t, addr)
+                elif is_sym(addr):
                     L[dst] = self.sym_load(st, t, addr)
                 else:
                     L[dst] = self.load(st, t, addr)
@@ -1615,7 +1631,15 @@ class Engine:
                 _, _, t, v, a = ins
                 addr = (L[a[1]] if a[0] == 'l' else (a[1] if a[0] == 'c' else self.ev(st, fr, PTR, a)))
                 val = (L[v[1]] if v[0] == 'l' else (v[1] if v[0] == 'c' else self.ev(st, fr, t, v)))
-                if is_sym(addr):
+                if type(addr) is int:
+                    k = t[0]
+                    if k == 'ptr':
+                        self.store_int(st, addr, 8, val)
+                    elif k == 'i' and t[1] in (8, 16, 32, 64) and (type(val) is int or val is None):
+                        self.store_int(st, addr, t[1] >> 3, val)
+                    else:
+                        self.store(st, t, val, addr)
+                elif is_sym(addr):
                     self.sym_store(st, t, val, addr, worklist)
                 else:
                     self.store(st, t, val, addr)
@@ -1710,6 +1734,7 @@ class Engine:
                     for a in sb[fr.nsb:]:
                         mem.pop(a, None)
                     del sb[fr.nsb:]
+                    st.lo = None
                 st.sbrk = fr.sp
                 st.frames.pop()
                 if not st.frames:
